@@ -205,4 +205,17 @@ def Runner.init (cfg : Cfg) (st0 : State) (now : Int) (start : Option Ev) (timeo
   let rw := rewind cfg st0 now
   execCmds { r1 with st := rw.1 } rw.2
 
+/-! ### `rebuild_state_from_ticks`: what `ctx.to_dict()` / `running_steps()` compute -/
+
+/-- The checkpointed state the run was started from is rewound first — **always**, exactly as
+the head of `run()` did to it: in-progress invocations go back to the front of their queue and
+queued ones are started again as workers `0, 1, …` up to the step's limit (so also when nothing
+was in progress) — and then every logged tick is reduced, each with the decisions its policy makes
+now and at the CURRENT clock (not at the tick's recorded time).  `none` where a reduction raises. -/
+def rebuildAt (cfg : Cfg) (st0 : State) (log : List (Tick × Policy)) (now : Int) : Option State :=
+  log.foldl (fun acc tp => acc.bind fun s =>
+      let r := reduce cfg tp.2 tp.1 s now
+      if r.2.contains .crash then none else some r.1)
+    (some (rewind cfg st0 now).1)
+
 end Engine
